@@ -262,5 +262,5 @@ def streams(ctx):
                             "on the implementation trace: no id in two places, token = listener connected to, dispatched at most once and to the "
                             "worker holding it, no reappearance, departures only by completion/drain/kill, no gap in a listener's FIFO while a "
                             "worker lives, everything dispatched after settling" % n),
-            bld_stream(ctx, ("C01",), ["a", "ca", "cia", "k", "cka", "cb", "bx", "s", "csz", "as"], 96, 1500),
+            bld_stream(ctx, ("C01",), ["a", "ca", "cia", "k", "cka", "cb", "bx", "s", "csz", "as", "bf", "cbf"], 112, 1500),
             wrk_stream(ctx)]
